@@ -97,7 +97,7 @@ func tipAhead(b blk) pcommon.Tip {
 
 func rollForward(ntn bool, b blk, tip pcommon.Tip) wire {
 	if ntn {
-		m, err := chainsync.NewMsgRollForwardNtN(b.Type-1, 0, b.Header, tip)
+		m, err := chainsync.NewMsgRollForwardNtN(b.Type-1, 0, b.Bytes, tip)
 		if err != nil {
 			panic(err)
 		}
@@ -315,12 +315,13 @@ func txSubmissionScenarios() []*scenario {
 	cSubmit := call("SubmitTx", func(c *ouroboros.Connection) (string, error) { return okStr(cl(c).SubmitTx(7, tx)) })
 	cStop := call("Stop", func(c *ouroboros.Connection) (string, error) { return okStr(cl(c).Stop()) })
 	r := rp("SubmitTx", accept, reject, rejectOdd)
+	r2 := rp("SubmitTx~2", accept, reject, rejectOdd)
 	mk := func(name string, calls []apiCall, script []ev) *scenario {
 		return &scenario{Name: "txsubmit/" + name, Proto: proto, ProtoID: id, Mode: modeNtC, Calls: calls, Script: script, BadExtra: badExtra}
 	}
 	return []*scenario{
 		mk("SubmitTx", []apiCall{cSubmit}, []ev{rq(0, "SubmitTx"), r}),
-		mk("SubmitTx-twice-Stop", []apiCall{cSubmit, cSubmit, cStop}, []ev{rq(0, "SubmitTx"), r, rq(0, "SubmitTx"), r, rq(3, "Stop")}),
+		mk("SubmitTx-twice-Stop", []apiCall{cSubmit, cSubmit, cStop}, []ev{rq(0, "SubmitTx"), r, rq(0, "SubmitTx~2"), r2, rq(3, "Stop")}),
 	}
 }
 
@@ -340,7 +341,7 @@ func chainSyncOpts(limit int) func() []ouroboros.ConnectionOptionFunc {
 func chainSyncScenarios() []*scenario {
 	const proto = "chain-sync"
 	bs := testBlocks()
-	b0, b1 := bs[0], bs[1]
+	b0, b1 := bs[1], bs[0] // babbage (older) then conway
 	var out []*scenario
 	for _, ntn := range []bool{false, true} {
 		ntn := ntn
@@ -441,7 +442,7 @@ func chainSyncScenarios() []*scenario {
 			mk("Sync-Stop", 1, []apiCall{cSync, cStop}, []ev{
 				rq(4, "Sync"), rInt("Sync", found),
 				rq(0, "Sync"), rNext("Sync", back),
-				rq(0, "Stop")}),
+				rqAny("Stop")}),
 			mk("Tip-Range-Sync-Stop", 2, []apiCall{cTip, cRange, cSync, cStop}, []ev{
 				rq(4, "GetCurrentTip"), rInt("GetCurrentTip", foundOrigin),
 				rq(4, "GetAvailableBlockRange"), rInt("GetAvailableBlockRange", found),
@@ -501,7 +502,7 @@ func blockFetchScenarios() []*scenario {
 		mk("GetBlockRange", []apiCall{cRange}, []ev{rq(0, "GetBlockRange"), rStart("GetBlockRange"), rBlock("GetBlockRange", blk0), rBlock("GetBlockRange", blk1), rDone("GetBlockRange")}),
 		mk("GetBlock-GetBlock-Stop", []apiCall{cGet, cGet, cStop}, []ev{
 			rq(0, "GetBlock"), rStart("GetBlock"), rBlock("GetBlock", blk0), rDone("GetBlock"),
-			rq(0, "GetBlock"), rStart("GetBlock"), rBlock("GetBlock", blk0), rDone("GetBlock"),
+			rq(0, "GetBlock~2"), rStart("GetBlock~2"), rBlock("GetBlock~2", blk0), rDone("GetBlock~2"),
 			rq(1, "Stop")}),
 		mk("GetBlockRange-GetBlock", []apiCall{cRange, cGet}, []ev{
 			rq(0, "GetBlockRange"), rStart("GetBlockRange"), rBlock("GetBlockRange", blk0), rBlock("GetBlockRange", blk1), rDone("GetBlockRange"),
@@ -532,7 +533,7 @@ func peerSharingScenarios() []*scenario {
 	}
 	return []*scenario{
 		mk("GetPeers", []apiCall{cGet}, []ev{rq(0, "GetPeers"), r}),
-		mk("GetPeers-twice", []apiCall{cGet, cGet}, []ev{rq(0, "GetPeers"), r, rq(0, "GetPeers"), r}),
+		mk("GetPeers-twice", []apiCall{cGet, cGet}, []ev{rq(0, "GetPeers"), r, rq(0, "GetPeers~2"), rp("GetPeers~2", peers, none, odd)}),
 	}
 }
 
@@ -707,7 +708,7 @@ func leiosScenarios() []*scenario {
 	{
 		const proto = "leios-votes"
 		id := leiosvotes.ProtocolId
-		vote := enc("Vote", leiosvotes.NewMsgVote(leiosvotes.Vote{SlotNo: 5, VoterId: 9, VoteSignature: []byte("sig")}))
+		vote := enc("Vote", leiosvotes.NewMsgVote(leiosvotes.Vote{SlotNo: 5, VoterId: 9, VoteSignature: make([]byte, 48)}))
 		badExtra := []wire{enc("client-kind-Done", leiosvotes.NewMsgDone())}
 		opts := func() []ouroboros.ConnectionOptionFunc {
 			cfg := leiosvotes.NewConfig(
@@ -729,7 +730,7 @@ func leiosScenarios() []*scenario {
 				Script: []ev{rq(0, "RequestNext"), rp("RequestNext", vote), rp("RequestNext", vote)}},
 			&scenario{Name: "leiosvotes/Sync-Stop", Proto: proto, ProtoID: id, Mode: modeNtN, Opts: opts, BadExtra: badExtra,
 				Calls:  []apiCall{cSync, cStop},
-				Script: []ev{rq(0, "Sync"), rp("Sync", vote), rp("Sync", vote), rq(0, "Sync"), rp("Sync", vote)}},
+				Script: []ev{rq(0, "Sync"), rp("Sync", vote), rp("Sync", vote), rqAny("Stop")}},
 		)
 	}
 	return out
@@ -743,7 +744,7 @@ func dmqScenarios() []*scenario {
 	dm.MessageID = make([]byte, 32)
 	dm.Payload.MessageBody = []byte("body")
 	dm.Payload.KESPeriod = 1
-	dm.Payload.ExpiresAt = 0xfffffff0 // far future: the client only checks expiry
+	dm.Payload.ExpiresAt = uint32(time.Now().Add(20 * time.Minute).Unix())
 	dm.KESSignature = make([]byte, 448)
 	dm.OperationalCertificate.KESVerificationKey = make([]byte, 32)
 	dm.OperationalCertificate.ColdSignature = make([]byte, 64)
@@ -759,10 +760,14 @@ func dmqScenarios() []*scenario {
 		reject := enc("RejectMessage", rejM)
 		badExtra := []wire{enc("client-kind-Done", localmessagesubmission.NewMsgDone())}
 		opts := func() []ouroboros.ConnectionOptionFunc {
-			cfg := localmessagesubmission.NewConfig(
-				localmessagesubmission.WithAcceptMessageFunc(func(localmessagesubmission.CallbackContext) {}),
-				localmessagesubmission.WithRejectMessageFunc(func(localmessagesubmission.CallbackContext, pcommon.RejectReason) {}),
-			)
+			// a literal Config: NewConfig would install the default KES authenticator, and
+			// signing a message is not what this check is about (the client then only
+			// checks the expiry)
+			cfg := localmessagesubmission.Config{
+				Timeout:           30 * time.Second,
+				AcceptMessageFunc: func(localmessagesubmission.CallbackContext) {},
+				RejectMessageFunc: func(localmessagesubmission.CallbackContext, pcommon.RejectReason) {},
+			}
 			return []ouroboros.ConnectionOptionFunc{ouroboros.WithLocalMessageSubmissionConfig(cfg)}
 		}
 		cl := func(c *ouroboros.Connection) *localmessagesubmission.Client { return c.LocalMessageSubmission().Client }
